@@ -507,3 +507,12 @@ def bin_filling(E, L):
             E.prove(tag + '.count[%d]' % bq, int(tb[bq, 0, 0, 0]) == len(want[bq]))
             for j, idv in enumerate(want[bq]):
                 E.prove(tag + '.entry[%d,%d]' % (bq, j), tb[bq, 0, 0, j + 1] == idv)
+
+# ----------------------------------------------------------------------------
+# callee contracts this property's proofs ASSUME are part of this check (modular verification carries the property only if the assumed contract is itself
+# discharged on the same tree): the groups of the property that establishes them run here as well, reported under this property when they fail.
+# nlist's pair block is verified against the contract of dmag2_c (squared periodic distance = least candidate length); dmag.pyx is one of this property's files
+from . import c02 as _c02
+for _g in _c02.GROUPS:
+    if _g.name in ('kernels[ppp]', 'kernels[ppf]', 'kernels[pfp]', 'kernels[pff]', 'kernels[fpp]', 'kernels[fpf]', 'kernels[ffp]', 'kernels[fff]'):
+        GROUPS.append(_g)
